@@ -181,9 +181,12 @@ def prefix_arithmetic_layering(rep: Report, prog: Program, resolver: Resolver) -
         if fi.cls == "Prefix" or fi.module in ("hypothesis", "pytest", "formatting"):
             continue
         for node in ast.walk(fi.node):
-            if not isinstance(node, (ast.BinOp, ast.AugAssign)):
+            numeric_call = isinstance(node, ast.Call) and (
+                (isinstance(node.func, ast.Attribute) and node.func.attr in ("scaleb", "ldexp", "shift", "__pow__", "pow"))
+                or ast.unparse(node.func) in ("pow", "math.pow", "math.ldexp", "_pow", "math.log", "round"))
+            if not isinstance(node, (ast.BinOp, ast.AugAssign)) and not numeric_call:
                 continue
-            for sub in ast.walk(node):
+            for sub in (ast.walk(node) if not numeric_call else [x for a in list(node.args) + [k.value for k in node.keywords] for x in ast.walk(a)]):
                 if isinstance(sub, ast.Attribute) and sub.attr in ("base", "exponent"):
                     alts = resolver.expr_alts(fi, sub.value)
                     if any(k == "inst" and f == "measured.Prefix" for k, f in alts):
@@ -249,6 +252,10 @@ def run(rep: Report) -> None:
     if n == 0:
         raise AnalysisError("Prefix.__mul__: the Unit arm was not analysed")
     check_prefix_ops(rep, "R11.2", prog, resolver)
+    from .c05 import check_equate
+    rep.rule("R05.1", "the conversion tables are keyed by unprefixed units and store mutually inverse, correctly oriented ratios (shared with C05): "
+             "convert() strips the prefix from the magnitude and plans on factors, so a prefixed key applies a prefix twice", floor=6)
+    check_equate(rep, prog, resolver)
     value_preservation(rep, prog, resolver)
     plan_prefix_step(rep, prog)
     prefix_arithmetic_layering(rep, prog, resolver)
